@@ -2,6 +2,7 @@ import PttVerif.DriverLoop
 import PttVerif.Model.C02
 import PttVerif.Model.C02Spec
 import PttVerif.Model.C02Login
+import PttVerif.Gen.LoginSave
 open PttVerif PttVerif.C02 PttVerif.C02.Login
 
 /-- ops: fcrypt <pw-hex> <salt-hex> | spec <pw-hex> <two-salt-chars-hex> (the textbook `Spec.crypt3`) | gen <num-dec> <pw-hex> <seed-dec> | check <expected-hex> <input-hex> <accept|reject|any>.
@@ -33,6 +34,17 @@ def stepLogin (st : Store) (ws : List String) : Option (Store × String) :=
         | some u, some p, true => let (s, o) := step st (.login u p); some (s, showOut o)
         | _, _, _ => some (st, "bad-op")
       else none
+  | ["lrace", u, hA, a, b, num, k] =>
+      -- `sethash u hA`, then a full ptt.Login(u, a) with ptt.ChangePasswd(u, a -> b) completing between its halves
+      -- (schedule point login.afterQuery); the write-back rule of the second half is the one read from the source
+      match parseHex u, parseHex hA, parseHex a, parseHex b, num.toNat?, k.toNat? with
+      | some u, some hA, some a, some b, some num, some _ =>
+          let (s1, o1) := step st (.sethash u hA)
+          if o1 != Out.ok then some (s1, "refused") else
+          let (s2, ol, os) := loginInFlight PttVerif.Gen.LoginSave.loginSaveRereads s1 u a [.chpw u a b num]
+          let hs := match lookup s2 u with | some h => toHex h | none => "none"
+          some (s2, showOut ol ++ "," ++ ",".intercalate (os.map showOut) ++ "," ++ hs)
+      | _, _, _, _, _, _ => some (st, "bad-op")
   | [c, u, o, n, num, k, w] =>
       if c ≠ "chpw" && c ≠ "bchpw" then none else
       match parseHex u, parseHex o, parseHex n, num.toNat?, k.toNat?, wantOK w with
